@@ -1716,7 +1716,7 @@ WFA_MOD = ["self._params.positive_ack_params.ack_counter", "self._params.positiv
            "self._params.finished_params.file_status", "self._params.completion_disposition", "self._params"]
 
 C("_handle_waiting_for_finished_ack", arg_types={**SELF, "packet_holder": T.Obj(_PH)}, setup=_dest_holder_setup,
-  props=("C04", "C02", "C11"), result=None,
+  props=("C04", "C02", "C11", "C03"), result=None,
   requires=REQ_INV + REQ_TRK + DEFAULT + [("waiting_for_finished_ack", _wfa_pre)],
   modifies=WFA_MOD,
   cond_frames=[("C04.fin.nothing_happens_before_expiry", lambda o: (Not_(_pa_expired(o)) if not _hp_is(o, AckPdu) else False),
@@ -1730,6 +1730,10 @@ C("_handle_waiting_for_finished_ack", arg_types={**SELF, "packet_holder": T.Obj(
           Implies_(And_(_pa_expired(o), Not_(_pa_limit_hit(o))), And_(
               _pa(n.self).ack_counter == _pa(o.self).ack_counter + 1, _fin_pdu_is_live(n), step_is(n.self, STEP.WAITING_FOR_FINISHED_ACK)))
           if not _hp_is(o, AckPdu) else True), ("C04",)),
+      # C03 (open finding F26): a re-sent EOF PDU (its ACK was lost) must be acknowledged again, otherwise the sender, which ignores
+      # the Finished PDU while it waits for the EOF ACK, and the receiver wait for each other until both give up
+      Clause("C03.resent_eof_is_acknowledged_again", lambda o, n, r: (
+          any(p.cls is AckPdu for p in emitted(n)) if _hp_is(o, EofPdu) else True), ("C03",), assumable=False),
   ] + inv_clauses(("C04",)),
   effects={"timer", "fault_cb", "user", "vfs"}, modular=True)
 CONTRACTS[-1].inline_callees = {"DestHandler.__non_idle_fsm", "DestHandler.__idle_fsm"}  # the recursive state_machine() call
